@@ -84,7 +84,9 @@ theorem write_spec {α : Type} (n : Int) (ds : Int → α) (b0 blen : Int) (bloc
       simp only at hw
       split at hw
       · exact (Option.some.inj hw).symm
-      · cases hw
+      · split at hw
+        · exact (Option.some.inj hw).symm
+        · cases hw
     subst hwdef
     unfold boundedFixed
     simp only
@@ -92,16 +94,24 @@ theorem write_spec {α : Type} (n : Int) (ds : Int → α) (b0 blen : Int) (bloc
     · rw [if_pos hx, if_pos (by omega)]
     · rw [if_neg hx, if_neg (by omega)]
 
+theorem writeTarget_of_contains (n b0 blen lo hi : Int) (hn : 0 ≤ n)
+    (h : b0 ≤ (boundedFixed n lo hi).1.lo ∧ (boundedFixed n lo hi).1.hi ≤ b0 + blen) :
+    writeTarget n b0 blen lo hi = some (boundedFixed n lo hi).1 := by
+  have hok := bounded_fixed_ok n lo hi hn
+  unfold dsWindowOk at hok
+  simp only [Bool.and_eq_true, decide_eq_true_eq] at hok
+  unfold writeTarget Win1.len
+  simp only
+  by_cases he : (boundedFixed n lo hi).1.hi - (boundedFixed n lo hi).1.lo ≤ 0
+  · rw [if_pos he]
+  · rw [if_neg he, if_pos (by omega)]
+
 /-- a write succeeds whenever the block contains the window cropped to the dataset -/
 theorem write_ok_of_contains {α : Type} (n : Int) (ds : Int → α) (b0 blen : Int) (block : Int → α) (lo hi : Int)
     (hn : 0 ≤ n) (h : b0 ≤ (boundedFixed n lo hi).1.lo ∧ (boundedFixed n lo hi).1.hi ≤ b0 + blen) :
     (writeWindow n ds b0 blen block lo hi).isSome = true := by
-  have hok := bounded_fixed_ok n lo hi hn
-  unfold dsWindowOk at hok
-  simp only [Bool.and_eq_true, decide_eq_true_eq] at hok
-  unfold writeWindow writeTarget Win1.len
-  simp only
-  rw [if_pos (by omega)]
+  unfold writeWindow
+  rw [writeTarget_of_contains n b0 blen lo hi hn h]
   rfl
 
 /-- a successful write of a non-empty cropped window takes every pixel from inside the block -/
@@ -111,7 +121,9 @@ theorem write_within_block (n b0 blen lo hi : Int) (w : Win1) (h : writeTarget n
   simp only at h
   split at h
   · cases h; omega
-  · cases h
+  · split at h
+    · cases h; omega
+    · cases h
 
 /-- **Write then read**: after a successful write, reading any window returns the block's pixels over the written
     range and what a read would have returned before elsewhere. -/
@@ -129,6 +141,100 @@ theorem write_read_roundtrip {α : Type} (n : Int) (ds : Int → α) (b0 blen : 
   by_cases hx : max lo 0 ≤ a + (i : Int) ∧ a + (i : Int) < min hi n
   · rw [if_pos hx, if_pos hx, if_pos (by omega)]
   · rw [if_neg hx, if_neg hx]
+
+/-- **2-D write specification**: a successful write stores the block's pixel at every position of the window cropped
+    to the dataset and leaves every other pixel unchanged. -/
+theorem write2_spec {α : Type} (nr nc : Int) (ds : Int → Int → α) (br0 brlen bc0 bclen : Int) (block : Int → Int → α)
+    (rlo rhi clo chi : Int) (ds' : Int → Int → α)
+    (h : writeWindow2 nr nc ds br0 brlen bc0 bclen block rlo rhi clo chi = some ds') (r c : Int) :
+    ds' r c = if (max rlo 0 ≤ r ∧ r < min rhi nr) ∧ (max clo 0 ≤ c ∧ c < min chi nc) then block (r - br0) (c - bc0)
+              else ds r c := by
+  unfold writeWindow2 at h
+  split at h
+  · rename_i he
+    cases h
+    unfold boundedFixed Win1.len at he
+    simp only at he
+    rw [if_neg (by omega)]
+  · rename_i hne
+    split at h
+    · rename_i wr wc hr hc
+      cases h
+      have hwr : wr = (boundedFixed nr rlo rhi).1 := by
+        unfold writeTarget at hr
+        simp only at hr
+        split at hr
+        · exact (Option.some.inj hr).symm
+        · split at hr
+          · exact (Option.some.inj hr).symm
+          · cases hr
+      have hwc : wc = (boundedFixed nc clo chi).1 := by
+        unfold writeTarget at hc
+        simp only at hc
+        split at hc
+        · exact (Option.some.inj hc).symm
+        · split at hc
+          · exact (Option.some.inj hc).symm
+          · cases hc
+      subst hwr hwc
+      unfold boundedFixed Win1.len at hne
+      unfold boundedFixed
+      simp only at hne ⊢
+      by_cases hx : (max rlo 0 ≤ r ∧ r < min rhi nr) ∧ (max clo 0 ≤ c ∧ c < min chi nc)
+      · rw [if_pos hx, if_pos (by omega)]
+      · rw [if_neg hx, if_neg (by omega)]
+    · cases h
+
+/-- **A window that misses the dataset is a no-op, never an error** (the D13 repair): whatever block is offered -/
+theorem write2_outside_noop {α : Type} (nr nc : Int) (ds : Int → Int → α) (br0 brlen bc0 bclen : Int)
+    (block : Int → Int → α) (rlo rhi clo chi : Int) (hr : 0 ≤ nr) (hc : 0 ≤ nc)
+    (h : rhi ≤ 0 ∨ nr ≤ rlo ∨ rhi ≤ rlo ∨ chi ≤ 0 ∨ nc ≤ clo ∨ chi ≤ clo) :
+    writeWindow2 nr nc ds br0 brlen bc0 bclen block rlo rhi clo chi = some ds := by
+  unfold writeWindow2 boundedFixed Win1.len
+  simp only
+  rw [if_pos (by omega)]
+
+/-- the write as coded before the repair failed on such a window (witness: a block two pixels right of a 6 pixel
+    dataset) -/
+theorem write_outside_coded_counterexample : writeTargetCoded 6 8 3 8 11 = none ∧ (writeTarget 6 8 3 8 11).isSome := by
+  decide
+
+/-- a 2-D write succeeds whenever, along both axes, the block contains the window cropped to the dataset -/
+theorem write2_ok_of_contains {α : Type} (nr nc : Int) (ds : Int → Int → α) (br0 brlen bc0 bclen : Int)
+    (block : Int → Int → α) (rlo rhi clo chi : Int) (hnr : 0 ≤ nr) (hnc : 0 ≤ nc)
+    (hr : br0 ≤ (boundedFixed nr rlo rhi).1.lo ∧ (boundedFixed nr rlo rhi).1.hi ≤ br0 + brlen)
+    (hc : bc0 ≤ (boundedFixed nc clo chi).1.lo ∧ (boundedFixed nc clo chi).1.hi ≤ bc0 + bclen) :
+    (writeWindow2 nr nc ds br0 brlen bc0 bclen block rlo rhi clo chi).isSome = true := by
+  unfold writeWindow2
+  split
+  · rfl
+  · rw [writeTarget_of_contains nr br0 brlen rlo rhi hnr hr, writeTarget_of_contains nc bc0 bclen clo chi hnc hc]
+    rfl
+
+/-- clipping a window that lies inside `[b0, b1)` to the dataset keeps it inside `[b0, b1)` unless it becomes empty;
+    an empty clipped window is a no-op, so for the write only the non-empty case matters -/
+theorem bounded_within (n lo hi b0 b1 : Int) (h : b0 ≤ lo ∧ hi ≤ b1)
+    (hne : (boundedFixed n lo hi).1.lo < (boundedFixed n lo hi).1.hi) :
+    b0 ≤ (boundedFixed n lo hi).1.lo ∧ (boundedFixed n lo hi).1.hi ≤ b1 := by
+  unfold boundedFixed at hne ⊢
+  simp only at hne ⊢
+  omega
+
+/-- **Every fuse write succeeds**: a block that contains the output window along both axes (which every block of
+    `block_pairs` does - `fuse_write_contained_procRef` / `fuse_write_contained_procSrc` below) is written without
+    error wherever the output window lies relative to the dataset: inside, across an edge, or wholly outside. -/
+theorem write2_total_of_block_contains {α : Type} (nr nc : Int) (ds : Int → Int → α) (br0 brlen bc0 bclen : Int)
+    (block : Int → Int → α) (rlo rhi clo chi : Int) (hnr : 0 ≤ nr) (hnc : 0 ≤ nc)
+    (hr : br0 ≤ rlo ∧ rhi ≤ br0 + brlen) (hc : bc0 ≤ clo ∧ chi ≤ bc0 + bclen) :
+    (writeWindow2 nr nc ds br0 brlen bc0 bclen block rlo rhi clo chi).isSome = true := by
+  by_cases he : (boundedFixed nr rlo rhi).1.len ≤ 0 ∨ (boundedFixed nc clo chi).1.len ≤ 0
+  · unfold writeWindow2
+    rw [if_pos he]
+    rfl
+  · unfold Win1.len at he
+    exact write2_ok_of_contains nr nc ds br0 brlen bc0 bclen block rlo rhi clo chi hnr hnc
+      (bounded_within nr rlo rhi br0 (br0 + brlen) hr (by omega))
+      (bounded_within nc clo chi bc0 (bc0 + bclen) hc (by omega))
 
 /-- **Fuse writes never fail (reference-grid processing)**: the corrected block covers the expanded source input
     window, which always contains the rounded source output window (clipped to the image) it is written through. -/
@@ -162,6 +268,10 @@ theorem fuse_write_contained_procSrc (A B s v : Int) (hv : 0 ≤ v) (k : Nat) :
 /-! non-vacuity -/
 example : readWindow 4 (fun x => 10 + x) 0 (-2) 6 = some [0, 0, 10, 11, 12, 13, 0, 0] := by decide
 example : readWindow 4 (fun x => 10 + x) 0 7 9 = some [0, 0] := by decide
+example : (writeWindow2 4 6 (fun _ _ => (0 : Int)) 0 4 8 3 (fun i j => 100 + 10 * i + j) 0 4 8 11).isSome = true := by
+  decide
+example : (writeWindow2 4 6 (fun _ _ => (0 : Int)) 0 4 3 5 (fun i j => 100 + 10 * i + j) 0 4 3 8).map
+    (fun f => (List.range 6).map fun (c : Nat) => f 1 c) = some [0, 0, 0, 110, 111, 112] := by decide
 example : (writeWindow 6 (fun _ => (0 : Int)) 2 5 (fun i => 100 + i) 1 9).map (fun f => (List.range 6).map fun (i : Nat) => f i)
     = none := by decide
 example : (writeWindow 6 (fun _ => (0 : Int)) (-1) 9 (fun i => 100 + i) 1 9).map (fun f => (List.range 6).map fun (i : Nat) => f i)
